@@ -64,8 +64,18 @@ fn axle<const N: usize>(count: &mut u64) {
         assert_eq!(got.value.position, ((1u32 << N) - 1) as f32 / N as f32);
     }
     *count += 1;
+    // indices past the end: a safe caller must get a panic (or some terminal of this axle), never a reference outside it
+    for idx in [N, N + 1, N + 7, usize::MAX, usize::MAX / 64] {
+        let r = std::panic::catch_unwind(std::panic::AssertUnwindSafe(|| a.get_terminal(idx) as *const _ as usize));
+        if let Ok(addr) = r {
+            let base = &a as *const _ as usize;
+            assert!(N > 0 && addr >= base && addr < base + core::mem::size_of_val(&a), "Axle<{}>::get_terminal({}) returned a reference outside the axle", N, idx);
+        }
+        *count += 1;
+    }
 }
 fn main() {
+    std::panic::set_hook(Box::new(|_| {}));
     let max: usize = std::env::args().nth(1).and_then(|a| a.parse().ok()).unwrap_or(8);
     let mut count = 0u64;
     nary::<1>(&mut count);
